@@ -143,7 +143,7 @@ def run_parallel(binary, scripts, workers=16, chunk=None, **kw):
     return res
 
 
-def run_matrix(bins, scripts, workers=16, **kw):
+def run_matrix(bins, scripts, workers=16, chunk=None, **kw):
     """bins: {cfg: binary}; run the same scripts on every binary in parallel. Returns {cfg: [Result]}."""
     cfgs = list(bins)
     per = max(1, workers // max(1, len(cfgs)))
